@@ -13,6 +13,8 @@ ORD = lambda d: En('Ordering', d)
 
 
 def const_model(m, s):
+    if s in ('Less', 'Equal', 'Greater') or s.endswith(('Ordering::Less', 'Ordering::Equal', 'Ordering::Greater')):
+        return En('Ordering', {'Less': -1, 'Equal': 0, 'Greater': 1}[s.rsplit('::', 1)[-1]])
     if s.endswith('Duration::ZERO'):
         return mk_duration(z3.BitVecVal(0, 128))
     if re.search(r'(^|::)(<impl )?f32>?::INFINITY$', s): return Sc('f32', z3.fpPlusInfinity(F32))
@@ -75,7 +77,7 @@ def duration_from_secs_f32(m, x):
     m.assume(z3.If(z3.fpIsNaN(x), z3.And(z3.Extract(30, 23, bits) == 255, z3.Extract(22, 0, bits) != 0),
                    z3.fpBVToFP(bits, F32) == x))
     m.assume(z3.Implies(z3.fpIsZero(x), z3.Extract(30, 0, bits) == 0))
-    mant = z3.ZeroExt(104, z3.Extract(22, 0, bits)) | z3.BitVecVal(1 << 23, 128)
+    mant = z3.ZeroExt(105, z3.Extract(22, 0, bits)) | z3.BitVecVal(1 << 23, 128)
     e = z3.ZeroExt(120, z3.Extract(30, 23, bits)) - z3.BitVecVal(127, 128)      # exp as signed 128
     ovf = e >= z3.BitVecVal(64, 128)          # signed compare
     if m.branch(ovf):
@@ -513,6 +515,11 @@ def _minmax_by(m, args, is_max, cmpf=None):
     for x in items[1:]:
         ra, rx = m.alloc(acc), m.alloc(x)
         o = m.call_value(fref, [ra, rx]) if cmpf is None else cmpf(ra, rx)
+        if isinstance(acc, Sc) and isinstance(x, Sc) and not isinstance(o.d, int) and d_val(o.d) is None:
+            # scalar items and a symbolic comparison result: select with ite instead of forking
+            g = o.d == z3.BitVecVal(1, o.d.size())
+            acc = Sc(acc.ty, z3.If(g, acc.t, x.t) if is_max else z3.If(g, x.t, acc.t))
+            continue
         greater = ordering_is(m, o, 1)
         if is_max:
             acc = acc if greater else x          # std: max_by keeps the last maximum
@@ -714,6 +721,13 @@ def _unwrap_or(m, q, args, callee):
     c = d_val(o.d)
     if c is None and isinstance(args[1], Sc) and isinstance(o.p.get(1, [None])[0], Sc):
         return Sc(args[1].ty, z3.If(o.d == z3.BitVecVal(1, o.d.size()), o.p[1][0].t, args[1].t))
+    inner = o.p.get(1, [None])[0]
+    if c is None and isinstance(args[1], En) and isinstance(inner, En) and inner.name == args[1].name and not any(inner.p.values()) and not any(args[1].p.values()):
+        # field-less enums (Ordering): merge instead of forking
+        w = 8
+        def dv(e):
+            return z3.BitVecVal(e.d, w) if isinstance(e.d, int) else (e.d if e.d.size() == w else z3.Extract(w - 1, 0, e.d))
+        return En(inner.name, z3.If(o.d == z3.BitVecVal(1, o.d.size()), dv(inner), dv(args[1])))
     if discr_is(m, o, 1):
         return o.p[1][0]
     return args[1]
